@@ -151,6 +151,13 @@ func (s *EncryptionSession) initFinalize(reverse bool, keyContext string) error 
 		return errors.New("invalid key context")
 	}
 
+	// Check if a key exchange is in progress.
+	// The exchange keys are dropped by InitCleanup, which another key setup
+	// with the same router may have called in the meantime.
+	if s.kxRouterPrivate == nil || s.kxRemotePublic == nil {
+		return errors.New("key exchange not in progress")
+	}
+
 	// Compute shared key.
 	sharedKey, err := s.kxRouterPrivate.ECDH(s.kxRemotePublic)
 	if err != nil {
